@@ -96,7 +96,21 @@ func (vc *VC) execInstr(ins ssa.Instruction) {
 		for i := len(vc.defers) - 1; i >= 0; i-- {
 			d := vc.defers[i]
 			if !d.Block().Dominates(vc.cur) {
-				unsup("conditional defer")
+				// conditional defer: the call runs iff control passed through the defer statement.
+				// Executed under that narrower guard; its effects are merged with "not executed".
+				if vc.R[d.Block()] == "" {
+					continue // defer statement unreachable
+				}
+				saveR := vc.R[vc.cur]
+				g := vc.def("Rdefer", SBool, and(saveR, vc.R[d.Block()]))
+				before := vc.curMem
+				vc.curMem = before.clone()
+				vc.R[vc.cur] = g
+				vc.call(d.Common(), nil, d.Pos())
+				vc.R[vc.cur] = saveR
+				after := vc.curMem
+				vc.curMem = vc.mergeMems([]string{vc.R[d.Block()], not(vc.R[d.Block()])}, []*Mem{after, before})
+				continue
 			}
 			vc.call(d.Common(), nil, d.Pos())
 		}
